@@ -62,7 +62,7 @@ fn abs(t: &TxPacketNumbers) -> TxPn {
     }
 }
 
-//@ harness props=C08 tier=quick level=full timeout=120
+//@ harness props=C08 tier=quick level=full timeout=240
 //@ fn TxPacketNumbers::new
 //@ fn TxPacketNumbers::on_transmit
 //@ fn TxPacketNumbers::next
@@ -97,7 +97,7 @@ fn vq_c08_txpn_on_transmit() {
     kani::cover!(true, "reach:end");
 }
 
-//@ harness props=C08 tier=quick level=full timeout=120
+//@ harness props=C08 tier=quick level=full timeout=240
 //@ fn TxPacketNumbers::on_packet_ack
 //@ fn TxPacketNumbers::largest_sent_packet_number_acked
 #[kani::proof]
